@@ -25,6 +25,7 @@ UPS = ["Foo", "Bar", "Some", "None", "True", "False", "Void", "Constr0", "A", "M
 MODS = ["list", "dict", "m", "aiken_mod", "cardano"]
 TYVARS = ["a", "b", "k", "v"]
 DISCARDS = ["_", "_x", "_ignored", "_a_b", "_Foo", "_1"]
+HOLES = ["_x", "_ignored", "_Foo", "_1", "_y2"]  # `_a_b` (two underscores) only at the known-defect rate
 
 
 class G:
@@ -35,6 +36,8 @@ class G:
         self.paren = 0
         self.kd = known_defect_rate
         self.pure = False  # inside `const`: no fail/todo/trace outside a block
+        self.in_pipe = False
+        self.no_trace = False
 
     # ------------------------------------------------------------ helpers
     def tag(self, t):
@@ -73,10 +76,13 @@ class G:
             return str(self.r.below(10 ** self.r.range(1, 20)))
         if k == 3:
             self.tag("int:underscore")
-            return self.pick(["1_000_000", "1_0", "12_345", "999_999_999_999_999_999_999", "0_1", "1_00_0", "000_001", "10_0"])
+            if self.ch(*self.kd):
+                self.tag("int:underscore-zero-group")  # known defect: `0_1` is printed `01`
+                return self.pick(["0_1", "000_001", "0_0", "00_7"])
+            return self.pick(["1_000_000", "1_0", "12_345", "999_999_999_999_999_999_999", "1_00_0", "10_0", "1_2_3"])
         if k == 4:
             self.tag("int:underscore-random")
-            groups = [str(self.r.below(1000)) for _ in range(self.r.range(2, 4))]
+            groups = [str(self.r.range(1, 999))] + [str(self.r.below(1000)) for _ in range(self.r.range(1, 3))]
             return "_".join(groups)
         if k == 5:
             self.tag("int:hex")
@@ -117,7 +123,7 @@ class G:
             return "#[" + self.sepjoin([self.pick(["0x", "0x0", "0x00"]) + format(self.r.below(256), "x") for _ in range(self.r.range(1, 5))]) + "]"
         if k == 7:
             self.tag("bytes:array-underscore")
-            return "#[" + self.sepjoin([self.pick(["1_0", "2_55", "0_0", "1_2_3", "0_7"]) for _ in range(self.r.range(1, 3))]) + "]"
+            return "#[" + self.sepjoin([self.pick(["1_0", "2_55", "1_2_3", "1_7"]) for _ in range(self.r.range(1, 3))]) + "]"
         if k == 8 and not pattern:
             if self.ch(1, 2):
                 self.tag("bytes:curve-g1")
@@ -227,7 +233,7 @@ class G:
                 return "[" + ", ".join(els) + ", .." + self.name() + "]"
             if t == 2 and self.ch(1, 3):
                 self.tag("pat:list-tail-discard")
-                return "[" + ", ".join(els) + ", .." + self.pick(["_", "_rest"]) + "]"
+                return "[" + ", ".join(els) + ", .." + ("_rest" if self.ch(*self.kd) else "_") + "]"  # `.._rest`: known defect (name dropped)
             return "[" + self.sepjoin(els) + "]"
         if k == 9:
             self.tag("pat:pair")
@@ -289,7 +295,11 @@ class G:
                 self.tag("expr:block-operand")
                 if self.ch(1, 3):
                     self.tag("expr:block-operand-sequence")
-                    return "{\n" + self.sequence(d - 1) + "\n}"
+                    old, self.no_trace = self.no_trace, not self.ch(*self.kd)  # a trace in an operand block: known defect
+                    try:
+                        return "{\n" + self.sequence(d - 1) + "\n}"
+                    finally:
+                        self.no_trace = old
                 return "{ " + self.expr(d - 1) + " }"
             self.tag("expr:paren")
             return "(" + self.expr(d - 1) + ")"
@@ -314,15 +324,18 @@ class G:
             if i != pos and self.ch(1, 6):
                 self.tag("call:labelled-arg")
                 args[i] = self.name() + ": " + args[i]
-        hole = self.pick(DISCARDS) if self.ch(1, 4) else "_"
+        hole = self.pick(HOLES) if self.ch(1, 4) else "_"
         if hole != "_":
             self.tag("capture:named-hole")
-        if self.ch(1, 5):
-            self.tag("capture:labelled-hole")
+            if self.ch(*self.kd):
+                self.tag("capture:named-hole-two-underscores")  # known defect: printed as `_b`
+                hole = "_a_b"
+        if self.ch(1, 5) and (not self.in_pipe or self.ch(*self.kd)):
+            self.tag("capture:labelled-hole")  # after `|>`: known defect (label dropped)
             hole = self.name() + ": " + hole
         args[pos] = hole
         self.tag(f"capture:pos{pos}of{n}")
-        if n >= 2 and self.ch(1, 8):
+        if n >= 2 and self.ch(1, 8) and (not self.in_pipe or self.ch(*self.kd)):
             self.tag("capture:two-holes")
             args[(pos + 1) % n] = "_"
         return "(" + ", ".join(args) + ")"
@@ -437,8 +450,13 @@ class G:
             self.tag("expr:call-chain")
             s = self.callee() + "(" + self.sepjoin(self.args(d, 0, 2)) + ")" + self.pick([".field", ".1st", "(" + self.expr(d - 1) + ")", ".2nd.1st", ".a.b"])
         elif k == 21:
-            self.tag("expr:grouped-chain")
-            s = self.grouped(d) + self.pick([".field", ".1st", "(" + self.expr(d - 1) + ")", "()"])
+            tail = self.pick([".field", ".1st", "(" + self.expr(d - 1) + ")", "()"])
+            if self.ch(*self.kd):
+                self.tag("expr:grouped-chain")  # known defect when the group holds an operator
+                s = self.grouped(d) + tail
+            else:
+                self.tag("expr:grouped-atom-chain")
+                s = self.pick(["(%s)", "{ %s }"]) % self.pick([self.name(), self.callee() + "(" + self.name() + ")", "[" + self.name() + "]", "(a, b)"]) + tail
         elif k == 22:
             self.tag("expr:binop-as-value")
             op = self.pick([o for o in BINOPS if o != "|>"])
@@ -511,7 +529,11 @@ class G:
             return self.callee() + "(" + self.sepjoin(self.args(d, 0, 2)) + ")"
         if k == 2:
             self.tag("pipe:into-capture")
-            return self.callee() + self.capture_call(d)
+            self.in_pipe = True
+            try:
+                return self.callee() + self.capture_call(d)
+            finally:
+                self.in_pipe = False
         if k == 3:
             self.tag("pipe:into-lambda")
             return self.lambda_(d)
@@ -624,7 +646,7 @@ class G:
     def and_or(self, d):
         kw = self.pick(["and", "or"])
         self.tag("expr:" + kw + "-block")
-        els = self.many(lambda: self.expr(d - 1), 0 if self.ch(1, 15) else 1, 3)
+        els = self.many(lambda: self.expr(d - 1), 0 if self.ch(*self.kd) else 1, 3)  # `and {}`: known defect
         return kw + " {\n" + ",\n".join(els) + ("," if els and self.ch(2, 3) else "") + "\n}"
 
     # ------------------------------------------------------------ statements
@@ -655,7 +677,7 @@ class G:
                 self.tag("stmt:backpassing-multi")
             kw = self.pick(["let", "let", "expect"])
             return kw + " " + ", ".join(ps) + " <- " + self.callee() + "(" + self.sepjoin(self.args(d, 0, 2)) + ")"
-        if k == 6 and not self.pure:
+        if k == 6 and not self.pure and not self.no_trace:
             self.tag("stmt:trace")
             label = self.pick([self.string_lit(), '"bytes label"', self.name(), self.callee() + "(" + self.name() + ")"])
             s = "trace " + label
